@@ -14,6 +14,7 @@ import (
 	"runtime"
 	"runtime/debug"
 	"sort"
+	"strings"
 	"sync"
 	"time"
 
@@ -335,7 +336,11 @@ func (w *world) newConn(probe, full bool) *conn {
 		defer func() {
 			if v := recover(); v != nil {
 				c.mu.Lock()
-				c.panicVal, c.panicStack = v, string(debug.Stack())
+				st := string(debug.Stack())
+				if i := strings.Index(st, "\npanic("); i >= 0 {
+					st = st[i+1:] // drop the frames of this recover handler: the classifier looks at the first non-runtime frame
+				}
+				c.panicVal, c.panicStack = v, st
 				c.mu.Unlock()
 			}
 			c.mu.Lock()
